@@ -205,7 +205,7 @@ func (e *Exec) branchAssume(c *BoolV) bool {
 		if !d {
 			return false
 		}
-		e.assume(c.T)
+		e.assumeBranch(c.T)
 		return true
 	}
 	r := e.checkWith(c.T)
@@ -216,7 +216,7 @@ func (e *Exec) branchAssume(c *BoolV) bool {
 	}
 	e.script = append(e.script, true)
 	e.pos++
-	e.assume(c.T)
+	e.assumeBranch(c.T)
 	return true
 }
 
